@@ -14,6 +14,7 @@ the entry-adding commands push into the store before the clean-up runs.
   prune [flags]         main.rs:2416  (flags switch the three pruning passes and the search mode)
 -/
 import Vet.Model.Apply
+import Vet.Model.Report
 namespace Vet
 
 inductive Cmd
@@ -55,6 +56,24 @@ def Cmd.regenerates : Cmd → Bool
 
 /-- `get_store_updates` as wired for the command -/
 def Cmd.update (c : Cmd) (w : World) : Except Panic Updates := getStoreUpdates w c.modeOf
+
+/-- What a command leaves for the next `--locked` run, given the store as loaded (live view):
+`none` = it exits non-zero and writes nothing.  `check` commits only when the report has no
+errors (main.rs:2221-2294); the other commands always update and commit. -/
+def Cmd.run (c : Cmd) (w : World) : Except Panic (Option World) :=
+  match c with
+  | .check =>
+    match resolve w with
+    | .error e => .error e
+    | .ok r =>
+      if r.hasErrors then .ok none
+      else match c.update w with
+        | .error e => .error e
+        | .ok u => .ok (some (w.applyLocked u))
+  | _ =>
+    match c.update w with
+    | .error e => .error e
+    | .ok u => .ok (some (w.applyLocked u))
 
 /-! ### What the entry-adding commands push (before the clean-up) -/
 
